@@ -298,6 +298,7 @@ class SimOps:
                 if ref_count[i2_idx] <= 0: free_set.add(self.c_locs[i2_idx])
                 if ref_count[i3_idx] <= 0: free_set.add(self.c_locs[i3_idx])
                 o_idx = op[1]
+                if o_idx == self.tmp_idx: continue  # unconnected output: the scratch location is allocated already
                 cap = max(c_caps_min, c_caps[o_idx])
                 self.c_locs[o_idx], self.c_caps[o_idx] = h.alloc(cap), cap
             if c_reuse:
